@@ -816,17 +816,27 @@ func (s *sched) schedule() {
 
 //go:norace
 func (s *sched) quantumFor() int64 {
+	// The recorded decision is the *effective* quantum: a PCT priority change point is a
+	// point at which the task must come back to the scheduler, i.e. part of the schedule.
+	// (Recording only the policy's raw value made replays of PCT runs drift.)
 	q := s.decide("quantum", 0, func() int64 {
-		switch s.cfg.Policy {
-		case "random":
-			p := s.cfg.PreemptP
-			if p <= 0 {
-				return 0
+		var q int64
+		if s.cfg.Policy == "random" {
+			if p := s.cfg.PreemptP; p > 0 {
+				u := (float64(s.rnd()>>11) + 0.5) / (1 << 53)
+				q = 1 + int64(math.Log(u)/math.Log(1-p))
 			}
-			u := (float64(s.rnd()>>11) + 0.5) / (1 << 53)
-			return 1 + int64(math.Log(u)/math.Log(1-p))
 		}
-		return 0
+		if s.pctIx < len(s.pctPts) {
+			d := s.pctPts[s.pctIx] - s.passed
+			if d < 1 {
+				d = 1
+			}
+			if q <= 0 || d < q {
+				q = d
+			}
+		}
+		return q
 	})
 	if q > 0 {
 		s.res.Stats.Preemptions++
@@ -839,11 +849,6 @@ func (s *sched) quantumFor() int64 {
 	}
 	if s.stallIx < len(s.cfg.Stalls) {
 		if d := s.cfg.Stalls[s.stallIx].At - s.passed; d < q {
-			q = d
-		}
-	}
-	if s.pctIx < len(s.pctPts) {
-		if d := s.pctPts[s.pctIx] - s.passed; d < q {
 			q = d
 		}
 	}
